@@ -1052,7 +1052,7 @@ def check_case(chk, case):
             if compare(alt, got) is None:
                 sig = "po-comment-attached-across-one-blank-line"
         if case.get("exotic") and fmt != "po" and compare(splitlines_alt(case), got) is None:
-            sig = f"{fmt}-comment-val-splits-at-exotic-line-boundary"
+            sig = "offsetcomment-val-splits-at-exotic-line-boundary"
         chk.fail(sig, {k: case[k] for k in ("format", "text", "expected", "layout") if k in case},
                  {"what": d[0], **d[1], "got_all": got})
     return es
